@@ -96,14 +96,19 @@ Definition upgrade_plan (G:graph) (targets lower : list N) : pres (list N) :=
 Definition reach_or_nil (succ : N -> list N) (G:graph) (targets : list N) : list N :=
   match reach_set succ G targets with Some l => l | None => [] end.
 
+(* roots of the removal: children by down_revision of the target, all bases for `base`;
+   `if branch_label and len(roots) > 1:` keep those among the down-ancestors of the branch revision *)
+Definition roots0_of (G:graph) (target : option N) : list N :=
+  match target with None => bases_of G | Some t => nextrev G t end.
+Definition roots_of (G:graph) (target branch : option N) : list N :=
+  match branch, roots0_of G target with
+  | Some b, _ :: _ :: _ => interN (roots0_of G target) (reach_or_nil (down G) G [b])
+  | _, _ => roots0_of G target
+  end.
+
 Definition collect_downgrade (G:graph) (target branch : option N) (upper : list N) : pres (list N * list N) :=
-  let roots0 := match target with None => bases_of G | Some t => nextrev G t end in
-  let roots :=
-    match branch, roots0 with
-    | Some b, _ :: _ :: _ => interN roots0 (reach_or_nil (down G) G [b])
-    | _, _ => roots0
-    end in
-  match branch, roots0, roots with
+  let roots := roots_of G target branch in
+  match branch, roots0_of G target, roots with
   | Some _, _ :: _ :: _, [] => PErr PERevision       (* "Not a valid downgrade target from current heads" *)
   | _, _, _ =>
     let desc := reach_or_nil (all_nextrev G) G roots in
